@@ -293,12 +293,18 @@ fn gen_text_corpus(rng: &mut Rng, ext: &str) -> Vec<u8> {
         };
         format!("{}{}.{}", if rng.chance(1, 8) { "-" } else { "" }, int, frac)
     };
+    let long_name = |rng: &mut Rng| -> String {
+        let l = match rng.below(6) { 0 => 65_480 + rng.usize(80), 1 => 65_536, 2 => 70_000, 3 => 131_072 + rng.usize(3), 4 => 32_768, _ => 255 + rng.usize(3) };
+        "T".repeat(l)
+    };
     match ext {
         "asc" => {
             out.push_str(match rng.below(4) { 0 => "date Wed Oct 19 10:15:25.000 am 2022\n", 1 => "date Mit Okt 19 25:61:61.999 2022\n", 2 => "date\n", _ => "" });
             out.push_str(match rng.below(3) { 0 => "base hex  timestamps absolute\n", 1 => "base dec timestamps relative\n", _ => "" });
             for _ in 0..n {
-                let l = match rng.below(11) {
+                let l = match rng.below(13) {
+                    11 => format!("// BusMapping: CAN {} = {}\n", *rng.pick(&[0u32, 1, 31, 255, 256, 99999]), if rng.chance(1, 6) { long_name(rng) } else { "Body".to_string() }),
+                    12 => format!("// BusMapping: CANFD{}= x\n//\n// {}\n", rng.below(3), String::from_utf8_lossy(&rng.bytes_upto(20))),
                     8 => format!("   {} {}  {:x}             Rx   d {} {}\n", ts(rng, true), rng.below(40), rng.u32() % 0x800, rng.below(9), (0..rng.below(9)).map(|_| format!("{:02X}", rng.u8())).collect::<Vec<_>>().join(" ")),
                     9 => format!("{} CANFD {} Rx {:x} name 1 0 {:x} {} {}\n", ts(rng, true), rng.below(300), rng.u32(), rng.below(16), rng.below(70), (0..rng.below(70)).map(|_| format!("{:02x}", rng.u8())).collect::<Vec<_>>().join(" ")),
                     10 => format!("{} CANFD {} Rx ErrorFrame Not Acknowledge error, dominant error flag fffe c7 31ca Rx 0 0 f 0 0 0 0 0 0 0 0 0 0 0 0 0 0\n", ts(rng, true), rng.below(300)),
@@ -316,7 +322,9 @@ fn gen_text_corpus(rng: &mut Rng, ext: &str) -> Vec<u8> {
         }
         "txt" => {
             for _ in 0..n {
-                let l = match rng.below(9) {
+                let l = match rng.below(11) {
+                    9 => format!("  {} {} {} I {}: monotonic line with a long tag\n", ts(rng, false).trim_start_matches('-'), rng.below(100000), rng.below(100000), long_name(rng)),
+                    10 => format!("{:02}-{:02} {:02}:{:02}:{:02}.{:03} {} {} W {}: threadtime line with a long tag\n", 1 + rng.below(12), 1 + rng.below(28), rng.below(24), rng.below(60), rng.below(60), rng.below(1000), rng.below(100000), rng.below(100000), long_name(rng)),
                     7 => format!("  {} {} {} {} {}: monotonic line\n", ts(rng, false).trim_start_matches('-'), rng.below(100000), rng.below(100000), rng.pick(&["I", "D", "E", "W", "V", "F", "X"]), rng.pick(&["Tag", "a b", "ActivityManager"])),
                     8 => format!("{:02}-{:02} {:02}:{:02}:{:02}.{} {} {} I Tag: threadtime line\n", rng.below(14), rng.below(33), rng.below(25), rng.below(61), rng.below(61), match rng.below(3) { 0 => "999".to_string(), 1 => "99999999999999999999".to_string(), _ => format!("{}", rng.u32()) }, rng.below(100000), rng.below(100000)),
                     0 => format!("{}-{} {}:{}:{}.{} {} {} {} {}: {}\n", num(rng), num(rng), num(rng), num(rng), num(rng), num(rng), num(rng), num(rng), rng.pick(&["I", "D", "E", "W", "V", "F", "X", ""]), rng.pick(&["Tag", "", "a b", "ActivityManager"]), "text with : colons"),
@@ -332,7 +340,11 @@ fn gen_text_corpus(rng: &mut Rng, ext: &str) -> Vec<u8> {
         }
         _ => {
             for _ in 0..n {
-                let l = match rng.below(6) {
+                let l = match rng.below(10) {
+                    6 => format!("[2{:03}-{:02}-{:02} {:02}:{:02}:{:02}.{:03}] [{}] [{}] message {}\n", rng.below(1000), rng.below(14), rng.below(33), rng.below(25), rng.below(61), rng.below(62), rng.below(1000), rng.pick(&["INF", "WRN", "ERR", "VER", "FAT", "SEV", "DBG", "???", "\u{fc}\u{fc}"]), rng.pick(&["tag", "", "a b", "Component.Sub", "]["]), rng.u32()),
+                    7 => format!("[2024-02-29 23:59:59.999] [INF] [{}] long tag\n", long_name(rng)),
+                    8 => format!("[2000-01-01 00:00:00.000] [ERR] [t{}] first of a series\n[1999-12-31 23:59:59.999] [ERR] [t] not matching the year pattern\n[2999-12-31 23:59:59.999] [ERR] [t] far future\n", rng.below(5)),
+                    9 => format!("[2024-01-01 00:00:00.000] [INF] [tag] {}\n", "m".repeat(*rng.pick(&[0usize, 1, 65_500, 65_536, 70_000]))),
                     0 => format!("2023-{}-{}T{}:{}:{}.{}Z some generic log line {}\n", num(rng), num(rng), num(rng), num(rng), num(rng), num(rng), num(rng)),
                     1 => format!("[{}] {} message\n", num(rng), rng.pick(&["INFO", "ERROR", "", "warn"])),
                     2 => "\n".into(),
